@@ -124,6 +124,11 @@ task slow "slow" {{
   effort 4000h
   allocate r1
 }}
+task lim "lim" {{
+  effort {400 + seed % 9}h
+  allocate r0
+  limits {{ weeklymax 1h }}
+}}
 taskreport r1 "sched" {{
   formats json, csv
   columns id, start, end, cost
